@@ -184,6 +184,20 @@ func pkgPathOf(fn *ssa.Function) string {
 	return ""
 }
 
+// expands: the contract of the function under verification asks for this callee's body (`expand` clause).
+func (e *Exec) expands(fn *ssa.Function) bool {
+	if e.RootCt == nil || len(e.RootCt.Expand) == 0 {
+		return false
+	}
+	d := fnDisplay(fn)
+	for _, x := range e.RootCt.Expand {
+		if strings.HasSuffix(d, x) {
+			return true
+		}
+	}
+	return false
+}
+
 func (e *Exec) invokeFn(st *State, fr *Frame, fn *ssa.Function, args []Val, bindings []Val, in ssa.Instruction, rt types.Type) []callRes {
 	name := fn.String()
 	if fn.Origin() != nil {
@@ -198,7 +212,7 @@ func (e *Exec) invokeFn(st *State, fr *Frame, fn *ssa.Function, args []Val, bind
 	}
 	// synthetic wrappers (promoted methods, bound methods, thunks) are always expanded
 	if fn.Synthetic == "" || strings.HasPrefix(fn.Synthetic, "instance of") {
-		if ct := e.W.contractFor(fn); ct != nil && (fn != e.Root || fr.Depth > 0 || true) && !ct.Inline {
+		if ct := e.W.contractFor(fn); ct != nil && (fn != e.Root || fr.Depth > 0 || true) && !ct.Inline && !e.expands(fn) {
 			if fn == e.Root && fr.Depth == 0 {
 				// direct recursion handled via contract too
 			}
